@@ -540,7 +540,11 @@ fn recover(
     }
 
     // The replayed pages must be durable before the WAL, their only other copy, is collapsed.
+    #[cfg(feature = "verif")]
+    crate::verif::io::before_fd(ht_fd.as_raw_fd(), crate::verif::io::Kind::Fsync)?;
     ht_fd.sync_all()?;
+    #[cfg(feature = "verif")]
+    crate::verif::io::after();
 
     // Finally, we collapse the WAL file and fsync.
     writeout::truncate_wal(wal_fd, true)?;
